@@ -1,7 +1,7 @@
 """Native oracle for C19 (runs the real dagrt.expression.parse against str() of pymbolic expressions).
 
 Input (JSON): {"expr": <tree>, "clause": optional}   or   {"backtick_name": "<name>"}
-tree ::= ["var", name] | ["int", n] | ["float", "repr"] | ["complex", "repr"]
+tree ::= ["var", name] | ["int", n] | ["float", "repr"] | ["complex", "repr"] | ["bool", true|false]
        | ["sum", t...] | ["prod", t...] | ["quot", t, t] | ["floordiv", t, t] | ["rem", t, t] | ["pow", t, t]
        | ["cmp", op, t, t] | ["and", t...] | ["or", t...] | ["not", t]
        | ["call", t, [t...], {kw: t}] | ["sub", t, [t...]] | ["if", t, t, t]
@@ -45,6 +45,8 @@ def build(t):
         return float(t[1])
     if k == "complex":
         return complex(t[1])
+    if k == "bool":
+        return bool(t[1])
     if k == "sum":
         return p.Sum(tuple(build(c) for c in t[1:]))
     if k == "prod":
@@ -83,7 +85,7 @@ def build(t):
 
 def children(t):
     k = t[0]
-    if k in ("var", "int", "float", "complex"):
+    if k in ("var", "int", "float", "complex", "bool"):
         return []
     if k in ("sum", "prod", "and", "or"):
         return list(t[1:])
@@ -106,7 +108,7 @@ def replace(t, old, new):
     if t == old:
         return new
     k = t[0]
-    if k in ("var", "int", "float", "complex"):
+    if k in ("var", "int", "float", "complex", "bool"):
         return t
     if k == "cmp":
         return [k, t[1], replace(t[2], old, new), replace(t[3], old, new)]
@@ -796,6 +798,32 @@ def bounded(payload):
                 run(t)
                 n_tw += 1
     parts["equal_but_differently_printed_twins"] = n_tw
+
+    # ---- the constants True / False (they must come back as constants, not as variables named True / False) ----
+    n_b = 0
+    for bv in (True, False):
+        bc = ["bool", bv]
+        for t in (bc, ["if", bc, ["var", "<state>y"], ["var", "tol"]], ["or", ["cmp", "<", ["var", "<t>"], ["var", "<dt>"]], bc],
+                  ["and", bc, ["var", "<cond>c"]], ["not", bc], ["call", ["var", "<func>f"], [["var", "<state>y"]], {"k": bc}],
+                  ["call", ["var", "g"], [bc, ["var", "a"]]], ["cmp", "==", ["var", "flag"], bc],
+                  ["if", ["var", "<cond>c"], bc, ["not", bc]], ["sub", ["var", "arr"], [bc]]):
+            run(t)
+            n_b += 1
+    parts["boolean_constant_expressions"] = n_b
+
+    # ---- comparison chains: every pair of operators, nested on the left and on the right, over plain / tagged names and numbers ----
+    n_c = 0
+    ops3 = [["var", "a"], ["var", "<state>y"], ["var", "tol"], ["int", 2], ["var", "<t>"]]
+    for o1 in CMP_OPS:
+        for o2 in CMP_OPS:
+            for x_, y_, z_ in itertools.product(ops3, repeat=3):
+                if tier == "quick" and (n_c + seed) % 3 and not (o1 == "<" and o2 == ">"):
+                    n_c += 1
+                    continue
+                run(["cmp", o2, ["cmp", o1, x_, y_], z_])
+                run(["cmp", o1, x_, ["cmp", o2, y_, z_]])
+                n_c += 1
+    parts["comparison_chain_shapes"] = n_c
 
     # ---- backtick names, exhaustive over short names ----
     nb = 0
